@@ -168,7 +168,12 @@ pub fn builder_from(tokens: &[&str]) -> Result<rpm::PackageBuilder, rpm::Error> 
             let p: Vec<&str> = r.split(':').collect();
             let mut s = rpm::Scriptlet::new(hs(p[1]));
             if p[2] != "~" { s = s.flags(rpm::ScriptletFlags::from_bits_retain(p[2].parse().unwrap())); }
-            if p[3] == "-" { s = s.prog(Vec::<String>::new()); }
+            // an EMPTY interpreter list, alternately through `prog(vec![])` and by writing the public field directly
+            // (`Scriptlet { program: Some(vec![]), .. }`): either way no PROG entry may be emitted (seed C09-12: the empty-list
+            // guard moved from `apply` into `prog()`, a count-0 string array for values built by field assignment)
+            if p[3] == "-" {
+                if hs(p[1]).len() % 2 == 0 { s = s.prog(Vec::<String>::new()); } else { s.program = Some(Vec::new()); }
+            }
             else if p[3] != "~" { s = s.prog(p[3].split(',').map(hs).collect::<Vec<String>>()); }
             b = match p[0] {
                 "prein" => b.pre_install_script(s), "postin" => b.post_install_script(s), "preun" => b.pre_uninstall_script(s),
